@@ -217,6 +217,9 @@ def run(p, report, tier):
                 c05.check_entity(p, report, ci, f, it, r_param="R6.5", r_arr=None, r_est=None)
                 n65 += 1
     report.analysed["stream_entities_R6.5"] = n65
+    # ---- list-valued committees are deep-copied (their members' generators are private to the query)
+    from . import c05 as _c05
+    report.analysed["member_copy_sites"] = _c05.check_member_copies(p, report, "R6.4")
     # ---- R6.6 every fit starts from the seed again
     report.rule("R6.6", "every fit re-derives random_state_ from the constructor parameter before reading it (a test "
                 "hasattr(self, 'random_state_') being true does not count): a refitted model does not continue from the "
